@@ -144,6 +144,19 @@ def run(ctx):
                           case={'key_hex': k.hex()}, expected=expmd5, actual=md5tok, theorem='C08_md5')
         if MD.BytesToken.hash_fn(k) != k:
             ctx.violation('BytesToken.hash_fn.not-identity', 'BytesToken.hash_fn changes the key', case={'key_hex': k.hex()}, theorem='C08_bytes')
+        # the public constructor Token.from_key (what Metadata.get_replicas calls), for the three partitioners on the SAME key, in
+        # both orders: the token of one partitioner must not depend on what another partitioner computed for that key before
+        for order in ((MD.Murmur3Token, MD.MD5Token, MD.BytesToken), (MD.BytesToken, MD.MD5Token, MD.Murmur3Token)):
+            for cls_ in order:
+                t_ = cls_.from_key(k)
+                want = {MD.Murmur3Token: java_token(k), MD.MD5Token: expmd5, MD.BytesToken: k}[cls_]
+                if type(t_) is not cls_ or t_.value != want:
+                    ctx.violation('%s.from_key.differs-from-partitioner' % cls_.__name__,
+                                  '%s.from_key(%s) = %s(%r), the partitioner gives %r (asked in the order %s)'
+                                  % (cls_.__name__, k.hex()[:64], type(t_).__name__, t_.value if not isinstance(t_.value, bytes) else t_.value.hex()[:64],
+                                     want if not isinstance(want, bytes) else want.hex()[:64], '/'.join(c.__name__ for c in order)),
+                                  case={'key_hex': k.hex(), 'from_key': True}, theorem='C08_murmur3_token')
+                    break
         if len(k) <= 300:
             bl = blist(k)
             body, tail, total = body_and_tail(k)
@@ -234,6 +247,17 @@ def replay(ctx, rp):
     from cassandra.murmur3 import _murmur3
     from cassandra import metadata as MD
     k = bytes.fromhex(c['key_hex'])
+    if c.get('from_key'):
+        from cassandra import metadata as MD
+        bad = False
+        for order in ((MD.Murmur3Token, MD.MD5Token, MD.BytesToken), (MD.BytesToken, MD.MD5Token, MD.Murmur3Token)):
+            for cls_ in order:
+                t_ = cls_.from_key(k)
+                want = {MD.Murmur3Token: java_token(k), MD.MD5Token: abs(int.from_bytes(hashlib.md5(k).digest(), 'big', signed=True)), MD.BytesToken: k}[cls_]
+                print('replay %s.from_key -> %s(%r), partitioner %r' % (cls_.__name__, type(t_).__name__, t_.value, want))
+                bad = bad or type(t_) is not cls_ or t_.value != want
+        print(('VIOLATION property=C08 replay=%s' % ctx.replay_path) if bad else 'not reproduced')
+        return 1 if bad else 0
     if c.get('c_extension'):
         built, sos, cached = cybuild.build_cached(core.REPO)
         code = ('import sys; from cassandra import murmur3 as M; from cassandra.metadata import Murmur3Token as T; k = bytes.fromhex(sys.argv[1]); '
